@@ -68,6 +68,15 @@ def gen(tier, rnd):
     for c in sorted(codes)[::3]: L.append(line(65536, 'stream', c, [], [], [b'chunk']))
     for n in SIZES: L.append(line(1 << 20, 'send', 200, [], [], [body_of(rnd, n)]))
     for n in SIZES: L.append(line(1 << 20, 'stream', 200, [], [], [body_of(rnd, n)], 'f'))
+    # bodies made of ONE byte value: that byte then sits at every position at which the output buffer grows (512, 1024, 2048, 4096 ...),
+    # so a byte value that the buffer's overflow() mistakes for a sentinel (0xFF = char(EOF), 0x00 ...) cannot go unnoticed
+    special = (0xff, 0x00, 0x80, 0x7f, 0x0a, 0x0d, 0xfe, 0x01, 0x20, 0x3a)
+    for b in (range(256) if tier == 'thorough' else special):
+        L.append(line(1 << 20, 'send', 200, [], [], [bytes([b]) * 4200]))
+        L.append(line(1 << 20, 'stream', 200, [], [], [bytes([b]) * 4200], 'f'))
+        L.append(line(1 << 20, 'stream', 200, [], [], [bytes([b]) * 700, bytes([b]) * 3500], '--', 'ww'))
+    if tier == 'quick':
+        for b in range(256): L.append(line(1 << 20, 'send', 200, [], [], [bytes([b]) * 1100]))
     L.append(line(1 << 20, 'stream', 200, [('Server', 'x')], ['a=b'], [b'first', b'second'], '--', 'Ww'))      # moved before the first flush
     L.append(line(1 << 20, 'stream', 200, [], [], [b'first', b'second'], '--', 'wwM'))                          # moved with unflushed chunks
     # chunk-size lines at every change of the number of hex digits (a hand-formatted size line with a fixed buffer breaks at one of them)
@@ -218,7 +227,7 @@ def classify(ln, out):
     return (w[2], w[3], w[4].count('=') , w[5].count(',') + (w[5] != '-'), sz.bit_length(), w[8], out.split(' send=')[-1][:12])
 
 RULE = ('responses produced by a scripted handler on a live Http::Endpoint (127.0.0.1), read by a raw socket: every status code; 0..5 typed headers and 0..3 cookies from pools; '
-        'fixed bodies of 0..20000 bytes (every buffer doubling boundary, arbitrary octets, bodies that look like chunk terminators) with maximum response size far above, at total-1, total, total+1, and for two responses with long header and cookie values at every (quick: every third) position from 8 to total+2; '
+        'fixed bodies of 0..20000 bytes (every buffer doubling boundary, arbitrary octets, bodies that look like chunk terminators, bodies made of one byte value - 10 sentinel-like values in 4200 bytes and all 256 in 1100 bytes, thorough all 256 in 4200 - fixed and streamed, so that each value sits where the output buffer grows) with maximum response size far above, at total-1, total, total+1, and for two responses with long header and cookie values at every (quick: every third) position from 8 to total+2; '
         'streamed responses of 0..5 chunks (sizes incl. every change of the number of hex digits of the chunk-size line up to 0x100001) via write()/operator<<(const char*)/operator<<(int), zero-length writes, any flush pattern, the ResponseStream moved by the handler before some writes and/or before ends(), batches around the cap; HTTP/1.0 and 1.1 requests; fixed responses of 1..8 MB written through a 32 KB socket send buffer to a reader that pauses between bursts (the one queued buffer resumes after would-block many times): Content-Length and every body byte checked. '
         'The received bytes are checked by an independent RFC 7230 grammar and compared with the model\'s serialiser (header lines as sorted lists). non-trivial = distinct (mode, code, #headers, #cookies, size class, write kinds, outcome)')
 ASSUME = ['the handler does not set framing headers (Content-Length, Transfer-Encoding) itself', 'header/cookie values from the pools are in canonical written form',
